@@ -85,18 +85,22 @@ namespace Tsdate.Blocks
 
 /-! ## 1. `_block_singletons` -/
 
-/-- The arguments of `_block_singletons` (`edges_parent` is passed by the code but never read). -/
-structure Input (α : Type) where
+/-- The arguments of `_block_singletons` that do not concern mutations (`edges_parent` is passed by the
+code but never read). -/
+structure EdgeInput (α : Type) where
   unphased : Array Bool            -- individuals_unphased
   nodeInd : Array (Option Nat)     -- nodes_individual (NULL = none)
-  mutNode : Array Nat              -- mutations_node
-  mutPos : Array α                 -- mutations_position
   child : Array Nat                -- edges_child
   left : Array α                   -- edges_left
   right : Array α                  -- edges_right
   insOrder : Array Nat             -- indexes_insert
   remOrder : Array Nat             -- indexes_remove
   seqLen : α                       -- sequence_length
+
+/-- All arguments of `_block_singletons`. -/
+structure Input (α : Type) extends EdgeInput α where
+  mutNode : Array Nat              -- mutations_node
+  mutPos : Array α                 -- mutations_position
 
 /-- One flushed block: `blocks_order`, `blocks_edges` (two entries), `blocks_singletons`, `blocks_span`. -/
 structure Flushed (α : Type) where
@@ -185,16 +189,16 @@ def mutStep (oi : Option Nat) (D : Data α) (m : Nat) : Data α :=
 variable [Inhabited α] [Sub α] [BEq α] [LT α] [DecidableLT α]
 
 /-- Unphased individual of the child of edge `e`. -/
-def edgeInd (inp : Input α) (e : Nat) : Option Nat := unphInd inp.unphased inp.nodeInd (aget inp.child e)
+def edgeInd (inp : EdgeInput α) (e : Nat) : Option Nat := unphInd inp.unphased inp.nodeInd (aget inp.child e)
 
 /-- Unphased individual of the node of mutation `m`. -/
 def mutInd (inp : Input α) (m : Nat) : Option Nat := unphInd inp.unphased inp.nodeInd (aget inp.mutNode m)
 
-def posRemove (inp : Input α) (b : Nat) : α := aget inp.right (aget inp.remOrder b)
-def posInsert (inp : Input α) (a : Nat) : α := aget inp.left (aget inp.insOrder a)
+def posRemove (inp : EdgeInput α) (b : Nat) : α := aget inp.right (aget inp.remOrder b)
+def posInsert (inp : EdgeInput α) (a : Nat) : α := aget inp.left (aget inp.insOrder a)
 
 /-- `while b < num_edges and position_remove[b] == left`. -/
-def removeLoop (inp : Input α) (left : α) : Nat → Nat → Data α → Option (Nat × Data α)
+def removeLoop (inp : EdgeInput α) (left : α) : Nat → Nat → Data α → Option (Nat × Data α)
   | 0, _, _ => none
   | fuel + 1, b, D =>
     if b < inp.child.size ∧ (posRemove inp b == left) = true then
@@ -204,7 +208,7 @@ def removeLoop (inp : Input α) (left : α) : Nat → Nat → Data α → Option
     else some (b, D)
 
 /-- `while a < num_edges and position_insert[a] == left`. -/
-def insertLoop (inp : Input α) (left : α) : Nat → Nat → Data α → Option (Nat × Data α)
+def insertLoop (inp : EdgeInput α) (left : α) : Nat → Nat → Data α → Option (Nat × Data α)
   | 0, _, _ => none
   | fuel + 1, a, D =>
     if a < inp.child.size ∧ (posInsert inp a == left) = true then
@@ -217,20 +221,20 @@ def insertLoop (inp : Input α) (left : α) : Nat → Nat → Data α → Option
 def pmin (x y : α) : α := if y < x then y else x
 
 /-- The next breakpoint. -/
-def nextRight (inp : Input α) (a b : Nat) : α :=
+def nextRight (inp : EdgeInput α) (a b : Nat) : α :=
   let r0 := inp.seqLen
   let r1 := if b < inp.child.size then pmin r0 (posRemove inp b) else r0
   if a < inp.child.size then pmin r1 (posInsert inp a) else r1
 
 /-- `while d < num_mutations and position_mutation[d] < right` over the sorted mutation list `order`. -/
-def mutLoop (inp : Input α) (mi : Nat → Option Nat) (right : α) : List Nat → Data α → List Nat × Data α
+def mutLoop (mutPos : Array α) (mi : Nat → Option Nat) (right : α) : List Nat → Data α → List Nat × Data α
   | [], D => ([], D)
   | m :: rest, D =>
-    if aget inp.mutPos m < right then mutLoop inp mi right rest (mutStep (mi m) D m)
+    if aget mutPos m < right then mutLoop mutPos mi right rest (mutStep (mi m) D m)
     else (m :: rest, D)
 
 /-- The outer `while a < num_edges or b < num_edges`. -/
-def outer (inp : Input α) (mi : Nat → Option Nat) : Nat → Nat → Nat → List Nat → α → Data α → Option (Data α)
+def outer (inp : EdgeInput α) (mutPos : Array α) (mi : Nat → Option Nat) : Nat → Nat → Nat → List Nat → α → Data α → Option (Data α)
   | 0, _, _, _, _, _ => none
   | fuel + 1, a, b, order, left, D =>
     if a < inp.child.size ∨ b < inp.child.size then
@@ -241,8 +245,8 @@ def outer (inp : Input α) (mi : Nat → Option Nat) : Nat → Nat → Nat → L
         | none => none
         | some (a', D2) =>
           let right := nextRight inp a' b'
-          let r := mutLoop inp mi right order D2
-          outer inp mi fuel a' b' r.1 right r.2
+          let r := mutLoop mutPos mi right order D2
+          outer inp mutPos mi fuel a' b' r.1 right r.2
     else some D
 
 /-- Stable insertion sort of mutation ids by position (`np.argsort(mutations_position)`). -/
@@ -281,12 +285,14 @@ def wellFormed (inp : Input α) : Bool :=
   && inp.nodeInd.all (fun o => match o with | some i => decide (i < nI) | none => true)
   && decide (nI ≤ nE)
 
-/-- The sweep, with the unphased-individual-of-mutation map made explicit. -/
-def sweepCore (inp : Input α) (mi : Nat → Option Nat) (zero : α) : Option (Data α) :=
-  outer inp mi (2 * inp.child.size + 2) 0 0 (sortByPos inp.mutPos inp.mutNode.size) zero
-    (Data.init inp.unphased.size inp.mutNode.size)
+/-- The sweep.  It reads `mutations_node` only through `mi`, the unphased-individual-of-mutation map. -/
+def sweepCore (inp : EdgeInput α) (mutPos : Array α) (nMut : Nat) (mi : Nat → Option Nat) (zero : α) :
+    Option (Data α) :=
+  outer inp mutPos mi (2 * inp.child.size + 2) 0 0 (sortByPos mutPos nMut) zero
+    (Data.init inp.unphased.size nMut)
 
-def sweep (inp : Input α) (zero : α) : Option (Data α) := sweepCore inp (mutInd inp) zero
+def sweep (inp : Input α) (zero : α) : Option (Data α) :=
+  sweepCore inp.toEdgeInput inp.mutPos inp.mutNode.size (mutInd inp) zero
 
 /-- `_block_singletons`.  `zero` is the literal `0.0` the sweep starts from. -/
 def blockSingletons (inp : Input α) (zero : α) : Option (Output α) :=
